@@ -126,14 +126,14 @@ theorem C11_store_atomic (cb : Cb TA M OA U Q E) (s : Store TA M OA) :
         | ok u => simp at h
         | error e' => rfl
   · intro dest srcId classes rm flag e h
-    unfold mergeOwned at h ⊢
-    split
-    · rfl
-    · rename_i src hs
-      simp only [hs] at h
-      split at h
-      · split at h <;> simp at h
-      · simp_all
+    cases hs : find s srcId with
+    | none => simp [mergeOwned, hs]
+    | some src =>
+      rcases hme : mergeExternal cb (remove s srcId) dest src classes flag with ⟨rr, s2, k⟩
+      simp only [mergeOwned, hs, hme] at h ⊢
+      cases rr with
+      | error e' => rfl
+      | ok u => cases rm <;> simp at h
 
 /-! ### non-vacuity: callbacks that fail at the second class, after mutating their arguments -/
 private def cbx : Cb Nat Nat Nat Unit Unit Unit where
